@@ -199,8 +199,8 @@ class Builtins:
         return res
 
     # ---- run arms ---------------------------------------------------------------------------------------
-    def arm(self, variant, recv_kind=None):
-        ck = (variant, recv_kind)
+    def arm(self, variant, recv_kind=None, recv_payload=None):
+        ck = (variant, recv_kind, repr(recv_payload))
         if ck in self._arms:
             return self._arms[ck]
         adt = self.F.adt(BIF)
@@ -216,7 +216,7 @@ class Builtins:
                 v = it.deref(p, v)
                 n += 1
             return isinstance(v, Opaque) and v.tag.startswith("ARGS")
-        recv_val = self.T.prim_value(recv_kind, "arg0") if recv_kind else Opaque("arg0", "&" + PRIM)
+        recv_val = self.T.prim_value(recv_kind, "arg0", recv_payload) if recv_kind else Opaque("arg0", "&" + PRIM)
 
         def first(it, p, fid, fn, t, a):
             if is_args(it, p, a[0]):
@@ -299,7 +299,10 @@ class Builtins:
                     rets.add("?" + repr(tup)[:40])
         if it.exhausted:
             und.append("path bound")
-        r = {"req": req, "rets": rets, "bridge": bridge, "touched": touched, "paths": n_ok, "undecided": und, "calls": calls_seen}
+        n_err = sum(1 for o in outs if o.kind == "return" and isinstance(o.value, Variant) and o.value.adt == "core::result::Result" and o.value.name == "Err")
+        n_panic = sum(1 for o in outs if o.kind == "panic")
+        r = {"req": req, "rets": rets, "bridge": bridge, "touched": touched, "paths": n_ok, "undecided": und, "calls": calls_seen, "errs": n_err,
+             "panics": n_panic}
         self._arms[ck] = r
         return r
 
